@@ -245,7 +245,7 @@ func init() {
 		gen: func(tier string, seed int) []symx.CaseSpec {
 			var out []symx.CaseSpec
 			for n := 0; n <= q(tier, 2, 4); n++ {
-				for m := 0; m <= q(tier, 2, 4); m++ {
+				for m := 0; m <= q(tier, 2, 3); m++ {
 					if n+m > 6 {
 						continue
 					}
@@ -265,7 +265,7 @@ func init() {
 		},
 		boundsText: map[string]string{
 			"quick":    "existing length<=2, push batch<=2 with every mix of {primitive, nil, Stack, alias, alias with String, pointer to alias, Condition, int}; no-nesting bit and the other option bits: all values; capacity none or any value in [n+1, n+m+2]; optional SetNoNesting(b) with b symbolic; Condition side: all five wrappings of the offered stack x text/stack initial expression",
-			"thorough": "as quick with existing length<=4 and batches<=4 (n+m<=6)",
+			"thorough": "as quick with existing length<=4 and batches<=3 (batches of 4 over 8 value forms x capacity x three pre-state modes took 48 min and were dropped)",
 		},
 		outside: "batches longer than the bound; push policies (C14); nil pointers to aliases (C08)",
 	})
